@@ -626,9 +626,20 @@ def _check_param_normalised(ctx, R, f, p, fam, afs):
     rd = ReachingDefs(f, cfg)
     pm = astq.parents(f)
     conv = []
+    via = {}  # call in f -> (helper, the helper's own conversion call): the parameter is handed to a package helper that converts it
     for c in astq.func_calls(f):
-        if prog.resolve(f.module, c.func, f) is afs and len(c.args) == 2 and astq.is_name(c.args[1], p):
+        tgt = prog.resolve(f.module, c.func, f)
+        if tgt is afs and len(c.args) == 2 and astq.is_name(c.args[1], p):
             conv.append(c)
+        elif isinstance(tgt, FunctionInfo) and tgt is not afs:
+            off = 1 if (tgt.cls is not None and not tgt.is_staticmethod) else 0
+            for i, a in enumerate(c.args):
+                if astq.is_name(a, p) and i + off < len(tgt.params):
+                    formal = tgt.params[i + off]
+                    inner = [c2 for c2 in astq.func_calls(tgt) if prog.resolve(tgt.module, c2.func, tgt) is afs and len(c2.args) == 2 and astq.is_name(c2.args[1], formal)]
+                    if inner:
+                        conv.append(c)
+                        via[id(c)] = (tgt, inner[0], a)
     if not conv:
         ctx.bad(R, f, "parameter %s" % p,
                 "parameter %s is annotated Union[%s, Mapping, str] but is never passed through "
@@ -636,7 +647,11 @@ def _check_param_normalised(ctx, R, f, p, fam, afs):
                 "annotated alias parameter is normalised")
         return
     for c in conv:
-        r = prog.resolve(f.module, c.args[0], f)
+        if id(c) in via:
+            helper, inner_call, _ = via[id(c)]
+            r = prog.resolve(helper.module, inner_call.args[0], helper)
+        else:
+            r = prog.resolve(f.module, c.args[0], f)
         ctx.check(r is fam, R, f, astq.enclosing_stmt(pm, c),
                   "%s is normalised with its annotated family %s" % (p, fam.name),
                   "%s is annotated %s but normalised with family %s: an alias would resolve in the wrong registry"
@@ -653,7 +668,7 @@ def _check_param_normalised(ctx, R, f, p, fam, afs):
                 if not any(d.kind == "param" for d in defs):
                     continue
                 par = pm.get(id(x))
-                if isinstance(par, ast.Call) and par in conv and par.args[1] is x:
+                if isinstance(par, ast.Call) and par in conv and (par.args[1] is x if id(par) not in via else via[id(par)][2] is x):
                     continue
                 if isinstance(par, ast.Compare) and all(isinstance(o, (ast.Is, ast.IsNot)) for o in par.ops):
                     continue
